@@ -32,6 +32,33 @@ static std::string hex(uint64_t v)
 
 static uint64_t parse_hex(const std::string& s) { return strtoull(s.c_str(), nullptr, 16); }
 
+namespace engine
+{
+extern uint64_t PIECE_HASH[PIECE_NUM][SQUARE_NUM];
+extern uint64_t CASTLING_HASH[1 << 4];
+extern uint64_t SIDE_HASH;
+extern uint64_t ENPASSANT_HASH[FILE_NUM];
+}
+
+static uint64_t splitmix64(uint64_t x)
+{
+    x += 0x9e3779b97f4a7c15ULL;
+    x = (x ^ (x >> 30)) * 0xbf58476d1ce4e5b9ULL;
+    x = (x ^ (x >> 27)) * 0x94d049bb133111ebULL;
+    return x ^ (x >> 31);
+}
+
+// The engine seeds its Zobrist tables from std::random_device; for reproducible comparisons the
+// harness overwrites them with a fixed function that the model side evaluates too.
+static void deterministic_zobrist(uint64_t salt)
+{
+    for (int p = 0; p < 13; ++p)
+        for (int s = 0; s < 64; ++s) PIECE_HASH[p][s] = splitmix64(salt + p * 64 + s + 1);
+    for (int i = 0; i < 16; ++i) CASTLING_HASH[i] = splitmix64(salt + 1000 + i);
+    SIDE_HASH = splitmix64(salt + 2000);
+    for (int f = 0; f < 8; ++f) ENPASSANT_HASH[f] = splitmix64(salt + 3000 + f);
+}
+
 #include "ops_basic.h"
 #include "ops_more.h"
 
@@ -41,6 +68,7 @@ int main()
     zobrist::init();
     bitbase::init();
     endgame::init();
+    deterministic_zobrist(0);
     std::ios::sync_with_stdio(false);
     std::string line;
     while (std::getline(std::cin, line))
